@@ -180,7 +180,10 @@ func receiveFromTransport(ctx context.Context, c *channel, done chan<- struct{})
 		close(c.inSesChan)
 	}()
 
-	for c.Established() {
+	// The transport is not asked whether it is still connected: a closed transport fails the receive
+	// operation anyway, but only after handing over the envelopes that arrived before the closing
+	// (for instance, the finished session that precedes the peer's close).
+	for c.State() == SessionStateEstablished {
 		env, err := c.transport.Receive(ctx)
 		verifPoint("channel.recv.got")
 		if err != nil {
